@@ -52,7 +52,7 @@ THEOREMS = {
     'C19_find_break_decision': 'decision logic of find_break, both directions, every text / integer width / indent: it returns p EXACTLY when p is white space strictly behind the indent, every later white space lies beyond the width, and p is within the width unless it is the first white space behind the indent (Spec FirstBreak); it returns None EXACTLY when there is no white space behind the indent',
     'C19_defaults_from_source': 'wrapDefault (the call Interpreter.newline makes) is wrap at the default width / indent read from inspect.signature(wrap) on every run (Gen/WrapDefaults.lean), these are 79 and two blanks, and the model constants defaultWidth / defaultIndent equal the generated ones; finite fact by decide -- the module stops building when the source changes them',
     'C19_calls_lines': '[model wiring + invariant] the lines of iter_lines are replayed from the sequence of find_break calls of the loop (iterCalls, compared call by call with the real closure by op iter_trace); every call has an argument longer than the width and returns find_break of it',
-    'C19_engine_calls': 'ANY sequence of Interpreter.output / Interpreter.newline calls (fold of emit) from ANY state (output_lines, output_buffer): the lines gain per newline wrap(concatenation of the pieces buffered since the previous one) + line feed, the buffer ends up holding exactly the pieces written after the last newline; from the fresh state the joined lines are engineOutput of the groups',
+    'C19_engine_calls': '[fold law of the model step emit = Interpreter.output / newline as tied by op engine_calls] ANY sequence of Interpreter.output / Interpreter.newline calls (fold of emit) from ANY state (output_lines, output_buffer): the lines gain per newline wrap(concatenation of the pieces buffered since the previous one) + line feed, the buffer ends up holding exactly the pieces written after the last newline; from the fresh state the joined lines are engineOutput of the groups',
     'C19_physical_lines': 'physical lines (split at line feed) of engineOutput, hypothesis: no piece contains a line feed: they are, group after group, the emitted lines of wrap(group text) -- one empty line for an empty buffer -- then the empty string behind the last line feed; every physical line ends in no white space, and one longer than 79 columns has no white space behind column 2; within a group every physical line after the first starts with two blanks or is empty',
     'C19_engine_run_physical': 'the same for EVERY finished run of the interpreter model (Interp.run, any .bst program / input / fuel), hypothesis: no write$ group of the run\'s trace contains a line feed: physical lines of the returned .bbl text = emitted lines of the trace groups; no trailing white space; > 79 columns => no white space behind column 2; continuation lines of a group start with two blanks or are empty',
     'C19_engine_run_nonvacuous': 'a FUNCTION + EXECUTE program run through Interp.run (two pieces, an empty group, an 84-column group that is wrapped, a piece after the last newline$ that is lost): the .bbl text and the groups are as stated',
